@@ -394,11 +394,14 @@ def apply_run(ex, st, recv, args, exact=False):
     h = st.heap
     parent = h.get(recv, "parent")
     k = cidx_f(recv.term)
+    isroot = parent.term == recv.term
     for key in list(h.maps.keys()):
-        if key.split("#")[0] in ("g_calls", "g_stamp", "g_runs"):
+        if key.split("#")[0] in ("g_calls", "g_stamp", "g_runs", "parent", "root", "_issec", "_paper", "_paper_trade", "_fixed_income", "_bidoffer_set", "_has_strat_children"):
             continue
-        h.havoc(key, cond=lambda x: slot_f(parent.term, x) == k)
-    return [(st, NONEV)]
+        h.havoc(key, cond=lambda x: z3.If(isroot, treeof_f(x) == recv.term, slot_f(parent.term, x) == k))
+    s2 = st.fork()
+    s2.assume(dsl.fresh_bool("run_raises"))
+    return [(s2, _Raised("Exception")), (st, NONEV)]
 
 
 def _run_inv(ctx):
